@@ -477,9 +477,11 @@ Fixpoint meta_loop (fuel : nat) (payload : list N) (s : st) (x : io) : outcome (
         else
           let bs := takeN c src in
           let x1 := io_consume x c in
+          let tot := wadd64 (total_out_ s) c in
           let x2 := {| avail_in := avail_in x1; in_off := in_off x1; cap := cap x1 - c;
-                       produced := produced x1 ++ bs; total_arg := total_arg x1 |} in
-          meta_loop f payload (upd_core s (initialized s) (sstate_ s) (wsub32 (rem_meta s) c)) x2
+                       produced := produced x1 ++ bs; total_arg := tot |} in
+          let s1 := upd_out s (next_out s) (storage s) (storage_size s) (tiny s) (avail_out_ s) tot in
+          meta_loop f payload (upd_core s1 (initialized s1) (sstate_ s1) (wsub32 (rem_meta s1) c)) x2
       else
         let c := N.min (rem_meta s) 16 in
         let src := skipN (in_off x) payload in
@@ -503,10 +505,13 @@ Definition process_metadata (s : st) (payload : list N) (x : io) : outcome (bool
 (* ---- compress_stream ---- *)
 Definition loop_fuel (n : N) : nat := N.to_nat (n / 256 + 64).
 
-Definition compress_stream (s0 : st) (op : opk) (payload : list N) (offered capn : N)
+(* [tot0] is the value of the caller's total_out cell before the call: the Rust API takes an
+   in/out Option that the caller keeps across calls; the C ABI seeds it with the encoder's
+   running total (as found it seeded 0 - see compress_stream_c_asfound) *)
+Definition compress_stream_from (tot0 : N) (s0 : st) (op : opk) (payload : list N) (offered capn : N)
   : outcome (bool * st * io) :=
   let s := ensure_initialized s0 in
-  let x := {| avail_in := offered; in_off := 0; cap := capn; produced := []; total_arg := 0 |} in
+  let x := {| avail_in := offered; in_off := 0; cap := capn; produced := []; total_arg := tot0 |} in
   if negb (rem_meta s =? U32MAX) && (negb (offered =? rem_meta s) || negb (opk_eqb op OpMeta))
   then Done (false, s, x)
   else if opk_eqb op OpMeta then process_metadata (update_size_hint s 0) payload x
@@ -514,6 +519,15 @@ Definition compress_stream (s0 : st) (op : opk) (payload : list N) (offered capn
   else if negb (sstate_eqb (sstate_ s) SProcessing) && negb (offered =? 0) then Done (false, s, x)
   else if ((quality s =? 0) || (quality s =? 1))%Z && negb (catable s) && negb (magic s) then fast_loop (loop_fuel offered) op s x
   else stream_loop (loop_fuel offered) op s x.
+
+Definition compress_stream := compress_stream_from 0.
+(* BrotliEncoderCompressStream of the C ABI: *total_out after the call *)
+Definition c_reported_total (s0 : st) (op : opk) (payload : list N) (offered capn : N) : option N :=
+  match compress_stream_from (total_out_ s0) s0 op payload offered capn with
+  | Done (_, _, x) => Some (total_arg x) | _ => None end.
+Definition c_reported_total_asfound (s0 : st) (op : opk) (payload : list N) (offered capn : N) : option N :=
+  match compress_stream_from 0 s0 op payload offered capn with
+  | Done (_, _, x) => Some (total_arg x) | _ => None end.
 
 (* ---- take_output / queries ---- *)
 Definition has_more_output (s : st) : bool := negb (avail_out_ s =? 0).
@@ -534,6 +548,6 @@ Definition take_output (s : st) (size : N) : outcome (list N * st) :=
         recorded answer by the correspondence driver) ---- *)
 Definition answer_ok (a : answer) : bool :=
   (a_lbb a <? 16) && (a_lb a <? 2 ^ 16) && (a_lfp a <=? a_ipos a) && (a_lpp a <=? a_ipos a)
-  && (if a_fast a then true
+  && (if a_fast a then lenN (a_out a) <=? 2 * a_block a + 503
       else (if a_is_last a || a_force_flush a then (a_lfp a =? a_ipos a) && (a_lpp a =? a_ipos a) else true)
            && (match a_out a with [] => true | _ => nextout_eqb (a_no a) (NoDyn 0) end)).
